@@ -1,5 +1,5 @@
 //! Builds the subject described by a header, and says what C05 expects of that constructor call.
-use super::lru::{FRs, FRsCb, FSim, FSimCb, LruSubj};
+use super::lru::{FRs, FRsCb, FSim, FSimCb, FSimCbZ, LruSubj};
 use super::*;
 use crate::alpha::Kind;
 use crate::hashers::SimBuildHasher;
@@ -11,7 +11,9 @@ fn build_k<K: SimKey>(h: &Header) -> Result<Box<dyn Subject>, String> {
     }
     match (h.kind, h.random_state) {
         (Kind::Lru, false) => {
-            if h.with_cb {
+            if h.with_cb && h.ctor == 9 {
+                b(LruSubj::<K, FSimCbZ>::construct(h))
+            } else if h.with_cb {
                 b(LruSubj::<K, FSimCb>::construct(h))
             } else {
                 b(LruSubj::<K, FSim>::construct(h))
